@@ -162,20 +162,25 @@ def gen(rng, tier, i):
         else:
             host = "fd09::%x" % rng.randint(1, 200)
         mapped = None
+        mapped_name = False
         if tk == "ipv4" and lname == "l-http" and rng.random() < 0.25:
             # the client writes an IPv4 destination as an IPv4-mapped IPv6 literal: it is that IPv4 host which will be
             # contacted, so it is that host the rules must see (a rule on 10.9.0.0/24 must not be slipped this way)
             mapped = "::ffff:" + host
         udp = rng.random() < 0.2
+        if tk == "ipv4" and mapped is None and not udp and rng.random() < 0.12:
+            # the same literal where the protocol has room for a name: SOCKS5 address type 3, or a CONNECT authority
+            # without brackets (host = everything before the last colon)
+            mapped, mapped_name = "::ffff:" + host, True
         if tk != "domain" and rng.random() < 0.2:
             # a diverted (TPROXY) connection: no handshake, the target is the address the client dialled
-            lname, udp, mapped = "l-tp", False, None
+            lname, udp, mapped, mapped_name = "l-tp", False, None, False
             if (":" in host) != (":" in src):
                 src = sc.client_ip(":" in host)
         if udp and lname == "l-socks" and any(q["udp"] and q["listener"] == "l-socks" for q in reqs):
             udp = False  # SOCKS UDP associations all carry the target 0.0.0.0:0: keep at most one so it stays attributable
         feature = "UdpForward" if udp else "TcpForward"
-        reqs.append({"k": k, "listener": lname, "src": src, "host": host, "port": port, "tk": tk, "udp": udp, "feature": feature, "mapped": mapped})
+        reqs.append({"k": k, "listener": lname, "src": src, "host": host, "port": port, "tk": tk, "udp": udp, "feature": feature, "mapped": mapped, "mapped_name": mapped_name})
         pool["src_ips"].append(src)
         pool["tgt_hosts"].append(host)
         pool["ports"].append(port)
@@ -242,6 +247,14 @@ def gen(rng, tier, i):
                 # UDP over HTTP carries frames: the eager payload must be a well-formed frame holding the marker
                 early = rc.rpfm_frame(0, r["host"], r["port"], marker)
             hs, proto = sc.client_handshake(li, r.get("mapped") or r["host"], r["port"], early=early, variant="5p" if r["listener"] == "l-socks" else None, udp=r["udp"])
+            if r.get("mapped_name"):
+                lit = r["mapped"].encode()
+                for o in hs:
+                    if o["op"] == "send":
+                        b = bytes.fromhex(o["hex"])
+                        b = b.replace(b"[" + lit + b"]", lit)
+                        b = b.replace(rc.socks5_request(1, r["mapped"], r["port"]), rc.socks5_request(1, r["mapped"], r["port"], force_domain=True))
+                        o["hex"] = b.hex()
             for o in hs:
                 o["on_fail"] = "continue"
             ops = hs + [op("recv_eof", timeout_ms=3000, label="rest", on_fail="continue")]
